@@ -147,7 +147,7 @@ theorem mono_facts (hk : MonoK h j) :
       | some q0 =>
         rw [hsl] at hq0; simp only [Option.getD_some] at hq0
         obtain ⟨c, hcm, hcp, _, _⟩ := hctx.slot_some hsl
-        have := (hn.pods c hcm).2.2.2.2.2.2.2
+        have := (hn.pods c hcm).2.2.2.2.2.2
         rw [hcp, ← hq0, hcreated] at this; cases this
   · rintro c hcm ⟨o, w, hm⟩ hfs hr
     obtain ⟨c', hc', hcid, hcase⟩ := mono_delete_src hk hm
@@ -281,7 +281,7 @@ theorem mono_next (hk : MonoK h j) : MonoK h (nextW h j) := by
   obtain ⟨y, hy, hky⟩ := (nextW_pods hs hp).mem hx
   have e1 : y.pod.fs = x.pod.fs := key_transfer (·.pod.fs) (fun _ => rfl) hky
   have e2 : y.pod.ord = x.pod.ord := key_transfer (·.pod.ord) (fun _ => rfl) hky
-  obtain ⟨c, hcm, hco, hcfs⟩ := (rawNext_pod hs hp hy).2.2.2.2.2.2.2.2.2 (by rw [e1]; exact hfs)
+  obtain ⟨c, hcm, hco, hcfs⟩ := (rawNext_pod hs hp hy).2.2.2.2.2.2.2.2 (by rw [e1]; exact hfs)
   rw [hb, hE, ← e2, ← hco]
   exact hk.1.2.2 c hcm hcfs
 
